@@ -33,7 +33,11 @@ def build_sa(sa_db, style, steps, flt):
     Post, Author = sa_db.models["Post"], sa_db.models["Author"]
     cols = style.endswith("-cols")          # the base selects the title only: rows that look alike must all be kept
     sel = style.startswith("sa-select")
-    q = (sa.select(Post.title) if cols else sa.select(Post)) if sel else sa_db.session.query(Post.title if cols else Post)
+    grouped = style.endswith("-grouped")    # the base aggregates: posts per author
+    if grouped:
+        q = sa.select(Post.author_id, sa.func.count(Post.id)).group_by(Post.author_id)
+    else:
+        q = (sa.select(Post.title) if cols else sa.select(Post)) if sel else sa_db.session.query(Post.title if cols else Post)
     where = (lambda q, c: q.where(c)) if sel else (lambda q, c: q.filter(c))
     for kind, arg in steps:
         if kind == "where":
@@ -61,6 +65,9 @@ def build_sa(sa_db, style, steps, flt):
         rows = q.all()
         sql = str(q.statement.compile(sa_db.engine))
         hrows = host.all()
+    if grouped:
+        HOST_AFTER[0] = sorted(((r[0], r[1]) for r in hrows), key=lambda x: (x[0] is None, x[0] or 0))
+        return [("group", r[0], r[1]) for r in rows], sql
     HOST_AFTER[0] = [(r[0] if cols else r[0].id if (hasattr(r, "_fields") or isinstance(r, tuple)) else r.id) for r in hrows]
     if cols:
         return [("title", r[0], r[1] if len(r) > 1 else None) for r in rows], sql
@@ -138,6 +145,21 @@ def check_case(ctx, r, dj, sa):
         return
     # the host's query object still selects the base rows (the shorthand returns a new query, it does not edit the host's)
     host_ids = HOST_AFTER[0]
+    if style.endswith("-grouped"):
+        # an aggregating base: the filter selects the ROWS that are aggregated (posts per author of the selected posts)
+        import collections
+        author = {p["id"]: backends._col(p["author"]) for p in TITLES[r["inst"]]}
+        ks1 = (lambda x: (x[0] is None, x[0] or 0))
+        bag0 = [i for i, m in r["mult"] for _ in range(m)]
+        exp = sorted(collections.Counter(author[i] for i in bag0).items(), key=ks1)
+        got = sorted(((a, c) for _, a, c in rows), key=ks1)
+        if got != exp:
+            ctx.violation(dict(key, what="wrong-rows"), {"case": r, "got": got, "expected": exp, "sql": sql[:700]})
+        if host_ids != sorted(collections.Counter(author[i] for i in r["base"]).items(), key=ks1):
+            ctx.violation(dict(key, what="host-query-changed"), {"case": r, "host_rows_after": host_ids[:40]})
+        if len(steps) >= 2 and 0 < len(r["expected"]) < len(r["base"]):
+            ctx.nontriv([style, steps])
+        return
     if style.endswith("-cols"):
         tt = {p["id"]: backends._col(p["title"]) for p in TITLES[r["inst"]]}
         ks0 = (lambda x: (x is None, x or ""))
